@@ -28,6 +28,23 @@ const defaultSQLiteLeaseSweepInterval = 10 * time.Millisecond
 // maxUnixNanoTime is the latest instant the INTEGER nanosecond columns can hold.
 var maxUnixNanoTime = time.Unix(0, math.MaxInt64).UTC()
 
+// minUnixNanoTime is the earliest instant the INTEGER nanosecond columns can hold.
+var minUnixNanoTime = time.Unix(0, math.MinInt64).UTC()
+
+// clampToUnixNanoRange keeps a caller-supplied instant (received_at or
+// next_run_at of a published message) within the range of the INTEGER
+// nanosecond columns: year 9999 must stay in the far future and year 1000 in
+// the distant past instead of wrapping around to the other side.
+func clampToUnixNanoRange(t time.Time) time.Time {
+	if t.After(maxUnixNanoTime) {
+		return maxUnixNanoTime
+	}
+	if t.Before(minUnixNanoTime) {
+		return minUnixNanoTime
+	}
+	return t
+}
+
 // addClamped is t.Add(d) kept within the range of the INTEGER nanosecond
 // columns: a lease TTL, extension or delay of centuries must stay in the far
 // future instead of wrapping around into the past.
@@ -540,6 +557,8 @@ func (s *SQLiteStore) Enqueue(env Envelope) error {
 	if env.NextRunAt.IsZero() {
 		env.NextRunAt = env.ReceivedAt
 	}
+	env.ReceivedAt = clampToUnixNanoRange(env.ReceivedAt)
+	env.NextRunAt = clampToUnixNanoRange(env.NextRunAt)
 	if env.SchemaVersion == 0 {
 		env.SchemaVersion = 1
 	}
@@ -777,6 +796,8 @@ func (s *SQLiteStore) EnqueueBatch(items []Envelope) (int, error) {
 		if env.NextRunAt.IsZero() {
 			env.NextRunAt = env.ReceivedAt
 		}
+		env.ReceivedAt = clampToUnixNanoRange(env.ReceivedAt)
+		env.NextRunAt = clampToUnixNanoRange(env.NextRunAt)
 		if env.SchemaVersion == 0 {
 			env.SchemaVersion = 1
 		}
